@@ -88,13 +88,13 @@ const ntRule = "; non-trivial = at least one fault fired or the seeded scheduler
 var props = map[string]propSpec{
 	"C01": storeProp("fault_enumeration", 50, 900, "one case = seeded ingest history (1-4 rounds of concurrent bulks/searches/fetches) + planned crash point (k-th write/sync/any mutating disk op on .docs/.meta, power-loss image with lost/torn tail, or process exit) + restart + validation against the model after every round"+ntRule),
 	"C03": withVariants(storeProp("exploration", 60, 900, "one case = seeded corpus ingested into one fraction; the same battery (exact/wildcard/range/boolean searches both orders, limits, totals, histograms, aggregations, fetch lists with absent ids) is answered by the active fraction, the freshly sealed (preloaded) one, the one loaded from files after restart, after cache reset and during timer-driven cache eviction with readers overlapping; every answer must equal the model (hence each other); build variants of the on-disk block constants (default 64Ki/4Ki/16KiB, small 64/64/1KiB, tiny LIDBlockCap 8, 4 ids per block, 64 B blocks) so that postings, ID tables and token dictionaries straddle block boundaries with tens of documents; knob swarm over DocBlockSize, zstd level, SkipSortDocs, cache size 4KiB..256MiB"+ntRule), "small", "tiny"),
-	"C05": clusterProp(45, 600, "one case = 1-3 shards x 1-3 replicas of real stores behind the real bulk.SeqDBClient and search.Ingestor on the simulated transport (seeded per-call latencies reorder shard replies); bulks are routed by the client's shuffled shard choice, per-store FracSize is small so rotation/sealing happen at different moments on different nodes, timestamps arrive out of order so fraction ranges overlap, FractionsPerIteration differs per store, optional seal/restart of a store; searches through the proxy: both orders, limits, totals, histograms, paging with sizes 1..8 walked page by page, documents stream; compared with the model over the union"+ntRule),
-	"C06": clusterProp(45, 600, "same cluster as C05 with an aggregation/histogram-heavy battery: count/unique/sum/min/max/avg/quantile with and without group-by, histograms with intervals 1ms..60s; partial results of fractions are merged per store and shard replies are merged by the proxy in simulated arrival order; every bin compared with values computed directly from the matching documents (quantiles exactly, samples <= 8096)"+ntRule),
-	"C07": storeProp("exploration", 50, 900, "one case = 1-4 writer and 1-4 reader clients (search+immediate fetch of hits, fetch of absent/border ids) concurrent with the real maintenance loop (rotate->seal->release, retention in a third of the runs) and cache cleaner; seeded scheduler pre-empts at every lock/channel/wait and at statement level in the index-update code; per-request soundness checks inside readers, full model equality once writers are idle"+ntRule),
-	"C08": storeProp("fault_enumeration", 50, 900, "one case = seeded corpus, then a seal (forced, size-triggered by the maintenance loop, or on graceful stop) with one planned fault: crash/process-exit at the k-th mutating disk operation of the seal (64 consecutive seeds walk k=1..64 over the same corpus), or the k-th write/sync/rename/create on the index/sorted-docs output failing with EIO/ENOSPC/short write; validation right after the seal (if the process survived) and after restart"+ntRule),
-	"C14": storeProp("exploration", 45, 600, "one case = documents timestamped -72h..+3h relative to the simulated clock (around the 10-minute rule, the 24h clip and minute-bucket borders), clock jumps of hours between fractions, seal, restart with present/deleted/garbled/stale .frac-cache; battery of range queries whose ends fall on/around document timestamps and bucket borders, compared with the model that examines every document"+ntRule),
+	"C05": withVariants(clusterProp(45, 600, "one case = 1-3 shards x 1-3 replicas of real stores behind the real bulk.SeqDBClient and search.Ingestor on the simulated transport (seeded per-call latencies reorder shard replies); bulks are routed by the client's shuffled shard choice, per-store FracSize is small so rotation/sealing happen at different moments on different nodes, timestamps arrive out of order so fraction ranges overlap, FractionsPerIteration differs per store, optional seal/restart of a store; searches through the proxy: both orders, limits, totals, histograms, paging with sizes 1..8 walked page by page, documents stream; compared with the model over the union"+"; build variant tiny of the on-disk block constants (LIDBlockCap 8, 4 ids per block, 64 B blocks) in half of the runs so that sealed fractions have many blocks"+ntRule), "tiny"),
+	"C06": withVariants(clusterProp(45, 600, "same cluster as C05 with an aggregation/histogram-heavy battery: count/unique/sum/min/max/avg/quantile with and without group-by, histograms with intervals 1ms..60s; partial results of fractions are merged per store and shard replies are merged by the proxy in simulated arrival order; every bin compared with values computed directly from the matching documents (quantiles exactly, samples <= 8096)"+"; build variant tiny of the on-disk block constants (LIDBlockCap 8, 4 ids per block, 64 B blocks) in half of the runs so that sealed fractions have many blocks"+ntRule), "tiny"),
+	"C07": withVariants(storeProp("exploration", 50, 900, "one case = 1-4 writer and 1-4 reader clients (search+immediate fetch of hits, fetch of absent/border ids) concurrent with the real maintenance loop (rotate->seal->release, retention in a third of the runs) and cache cleaner; seeded scheduler pre-empts at every lock/channel/wait and at statement level in the index-update code; per-request soundness checks inside readers, full model equality once writers are idle"+"; build variant tiny of the on-disk block constants (LIDBlockCap 8, 4 ids per block, 64 B blocks) in half of the runs so that sealed fractions have many blocks"+ntRule), "tiny"),
+	"C08": withVariants(storeProp("fault_enumeration", 50, 900, "one case = seeded corpus, then a seal (forced, size-triggered by the maintenance loop, or on graceful stop) with one planned fault: crash/process-exit at the k-th mutating disk operation of the seal (64 consecutive seeds walk k=1..64 over the same corpus), or the k-th write/sync/rename/create on the index/sorted-docs output failing with EIO/ENOSPC/short write; validation right after the seal (if the process survived) and after restart"+"; build variant tiny of the on-disk block constants (LIDBlockCap 8, 4 ids per block, 64 B blocks) in half of the runs so that sealed fractions have many blocks"+ntRule), "tiny"),
+	"C14": withVariants(storeProp("exploration", 45, 600, "one case = documents timestamped -72h..+3h relative to the simulated clock (around the 10-minute rule, the 24h clip and minute-bucket borders), clock jumps of hours between fractions, seal, restart with present/deleted/garbled/stale .frac-cache; battery of range queries whose ends fall on/around document timestamps and bucket borders, compared with the model that examines every document"+"; build variant tiny of the on-disk block constants (LIDBlockCap 8, 4 ids per block, 64 B blocks) in half of the runs so that sealed fractions have many blocks"+ntRule), "tiny"),
 	"C15": storeProp("fault_enumeration", 50, 900, "one case = 2-5 rounds of sequential bulks with small FracSize/TotalSize so that create->rotate->seal->retention->.frac-cache cycle, a planned crash at the k-th create/rename/remove/dirsync/any mutating op per round, power loss/kill/stop, optional .frac-cache tampering; after every restart: store comes up, every known fraction is wholly served or wholly gone, served ones are the newest, fractions with .del files in the image never serve again"+ntRule),
-	"C17": storeProp("exploration", 45, 600, "one case = history of bulks with re-deliveries (whole-bulk repeats, partial overlaps with new documents, documents of several earlier bulks, the same bulk by two clients concurrently), validation on the active fraction, after seal and after restart/replay; set-semantics model; totals/histograms/aggregations/DocsTotal strict while all copies sit in one fraction"+ntRule),
+	"C17": withVariants(storeProp("exploration", 45, 600, "one case = history of bulks with re-deliveries (whole-bulk repeats, partial overlaps with new documents, documents of several earlier bulks, the same bulk by two clients concurrently), validation on the active fraction, after seal and after restart/replay; set-semantics model; totals/histograms/aggregations/DocsTotal strict while all copies sit in one fraction"+"; build variant tiny of the on-disk block constants (LIDBlockCap 8, 4 ids per block, 64 B blocks) in half of the runs so that sealed fractions have many blocks"+ntRule), "tiny"),
 	"C09": {Engine: "proxysim", Level: "fault_enumeration", Batch: 300, QuickSec: 30, ThorSec: 600,
 		Rule: "one case = topology 1-3 shards x 1-3 replicas hot (+ optional long-term tier), real bulk.SeqDBClient with the real circuit breaker (timeouts 50ms..1s, thresholds, sleep window on the fake clock) over scripted stub stores; per replica and call one of: ok, error, hang until the deadline, success after the deadline, reply lost, answer right at the deadline; 1-2 concurrent clients; oracle over the stubs' call log: acknowledged => some hot shard (and some long-term shard) has every replica with a successful call carrying exactly this payload, at most BulkMaxTries deliveries per replica, progress once faults stop; non-trivial = a non-ok outcome fired or the scheduler pre-empted; distinct = distinct (interleaving hash, fired outcome counts)",
 		Assume: []string{"stub stores answer as scripted; the payload is opaque bytes"},
